@@ -297,7 +297,7 @@ def shards(tier, seed):
     # an automatic response (ACK, RST_STREAM) followed by a connection error in the same chunk
     errs = [('PING', 'CONT'), ('SETTINGS', 'DATA9'), ('RST', 'DATA', 'CONT')]
     if tier == 'quick':
-        pairs = pairs[:7]
+        pairs = pairs[:7] + [('GOAWAY', 'PING')]
         triples = triples[:2]
         errs = errs[:2]
     triples = triples + errs
